@@ -22,6 +22,7 @@ type Case struct {
 	Clauses [][]int `json:"clauses"`
 	Method  string  `json:"method"` // MUS | MUSDeletion | MUSInsertion | MUSMaxSat
 	Shape   string  `json:"shape,omitempty"`
+	Arena   bool    `json:"arena,omitempty"` // the caller's clauses are sub-slices of one backing array (spare capacity behind each)
 }
 
 func call(pb *explain.Problem, method string) (*explain.Problem, error) {
@@ -63,12 +64,31 @@ func check(c Case, o *vf.Obs) error {
 	if err != nil {
 		return fmt.Errorf("explain.ParseCNF rejects a well-formed text: %v", err)
 	}
+	var arena, arenaBefore []int
+	if c.Arena {
+		// the Clauses field is exported: a caller may well carve its clauses out of one array.
+		// Nothing of that array may change, including the cells behind each clause.
+		o.Class("arena-clauses")
+		for _, cl := range pb.Clauses {
+			arena = append(arena, cl...)
+		}
+		arena = append(arena, 0, 0, 0, 0)
+		arenaBefore = append([]int{}, arena...)
+		off := 0
+		for i, cl := range pb.Clauses {
+			pb.Clauses[i] = arena[off : off+len(cl)]
+			off += len(cl)
+		}
+	}
 	sat := oracle.CNFSat(c.N, c.Clauses)
 	o.ClassIf(sat, "sat-input")
 	before := oracle.CloneCNF(pb.Clauses)
 	nbC, nbV := pb.NbClauses, pb.NbVars
 	for round := 0; round < 2; round++ {
 		mus, err := call(pb, c.Method)
+		if c.Arena && !reflect.DeepEqual(arena, arenaBefore) {
+			return fmt.Errorf("call %d of %s wrote into the array holding the caller's clauses: %v -> %v", round+1, c.Method, arenaBefore, arena)
+		}
 		if !reflect.DeepEqual(pb.Clauses, before) || pb.NbClauses != nbC || pb.NbVars != nbV {
 			return fmt.Errorf("call %d of %s changed the caller's problem: clauses %v -> %v, NbClauses %d->%d, NbVars %d->%d", round+1, c.Method, before, pb.Clauses, nbC, pb.NbClauses, nbV, pb.NbVars)
 		}
@@ -127,7 +147,15 @@ func core(t *rapid.T, vars []int) [][]int {
 
 func genCase(t *rapid.T) Case {
 	c := Case{Method: rapid.SampledFrom([]string{"MUS", "MUSDeletion", "MUSInsertion", "MUSMaxSat"}).Draw(t, "method")}
-	switch rapid.IntRange(0, 6).Draw(t, "shape") {
+	switch rapid.IntRange(0, 8).Draw(t, "shape") {
+	case 7, 8:
+		// dense 3-SAT with a few unit clauses: conflicts several levels deep under MUSDeletion's assumptions
+		c.Shape = "dense-3sat-with-units"
+		c.N = gen.Uniform(t, 7, 13, "n")
+		c.Clauses = gen.KSAT(t, c.N, c.N*gen.Uniform(t, 45, 60, "ratio")/10, 3)
+		for i, k := 0, rapid.IntRange(1, 3).Draw(t, "units"); i < k; i++ {
+			c.Clauses = append(c.Clauses, []int{gen.Lit(t, c.N, "u")})
+		}
 	case 0, 1:
 		c.Shape = "random"
 		c.N = gen.Uniform(t, 2, 8, "n")
@@ -184,6 +212,7 @@ func genCase(t *rapid.T) Case {
 		}
 	}
 	c.Clauses = rapid.Permutation(c.Clauses).Draw(t, "order")
+	c.Arena = gen.Chance(t, 1, 3, "arena")
 	return c
 }
 
@@ -204,7 +233,7 @@ func min(a, b int) int {
 
 func init() {
 	vf.Register(vf.Sub[Case]{Name: "mus", Quick: 10000, Thorough: 120000, Gen: genCase, Check: check, Floor: 0.25,
-		Rule: "CNF n<=10 via explain.ParseCNF, clauses over distinct variables: random (about 40% satisfiable), one core + padding, two disjoint cores, two overlapping cores, pigeonhole 3->2 / 4->3, repeated clauses, trivially conflicting units; method MUS|MUSDeletion|MUSInsertion|MUSMaxSat called twice on the same receiver; oracle = truth table: result is a sub-multiset of the input, unsatisfiable, every single-clause removal satisfiable, NbClauses consistent; satisfiable input => error and nil; receiver (Clauses deep, NbVars, NbClauses) unchanged; non-trivial = unsat input with >=2 clauses more than the returned MUS"})
+		Rule: "CNF n<=10 via explain.ParseCNF, clauses over distinct variables: random (about 40% satisfiable), one core + padding, two disjoint cores, two overlapping cores, pigeonhole 3->2 / 4->3, repeated clauses, trivially conflicting units, dense 3-SAT (n 7..13) with unit clauses; in a third of the cases the clauses handed to the library are sub-slices of one array, which must stay untouched; method MUS|MUSDeletion|MUSInsertion|MUSMaxSat called twice on the same receiver; oracle = truth table: result is a sub-multiset of the input, unsatisfiable, every single-clause removal satisfiable, NbClauses consistent; satisfiable input => error and nil; receiver (Clauses deep, NbVars, NbClauses) unchanged; non-trivial = unsat input with >=2 clauses more than the returned MUS"})
 }
 
 func TestMain(m *testing.M)   { vf.Main(m, "C07") }
